@@ -1017,7 +1017,7 @@ def modelled_family(res, rnd, subs, n, format_types=None):
         ops.append(op); meta.append((op, argv, impl))
     for (op, argv, impl), mo in zip(meta, model_batch(ops)):
         res.model_op()
-        if mo != impl:
+        if canon_cli(mo) != canon_cli(impl):
             def show(x):
                 t = x.split(" ")
                 try:
@@ -1025,6 +1025,16 @@ def modelled_family(res, rnd, subs, n, format_types=None):
                 except Exception:
                     return x[:300]
             res.disagree("%r  [%s]" % (argv, op[:300]), show(impl), show(mo))
+
+
+def canon_cli(line):
+    """Canonical form of an `ok <rc> <stdout> <class> <message>` line for the model comparison: the wording of
+    an error message is pinned by the properties only for the parse error ("Could not parse color '<text>'",
+    which must name the text); every other pastel error is compared as "an error", whatever its words."""
+    t = line.split(" ")
+    if len(t) == 5 and t[0] == "ok" and t[3] not in ("-", "color-parse"):
+        return " ".join(t[:3] + ["error", "-"])
+    return line
 
 
 def strip_sgr(b):
@@ -1089,7 +1099,7 @@ def c19(res, tier, seed, lib):
     outs = model_batch(ops)
     for (op, argv, impl), mo in zip(meta, outs):
         res.model_op()
-        if mo != impl:
+        if canon_cli(mo) != canon_cli(impl):
             def show(x):
                 t = x.split(" ")
                 try:
@@ -1258,7 +1268,10 @@ def c19(res, tier, seed, lib):
                 if want is None:
                     res.check(rc == 0, "picker-valid-works", "cli:colorpicker", "%s %r" % (name, cmd), "rc=%s %r" % (rc, err[-200:]))
                 else:
-                    res.check(rc == 1 and cls == want, "picker-failure-is-a-pastel-error", "cli:colorpicker", "%s %r" % (name, cmd), "rc=%s class=%s msg=%r" % (rc, cls, msg))
+                    # exit 1 with one pastel error; only the parse error's wording is pinned by a property
+                    # ("Could not parse color", C01) - the other messages may be worded freely
+                    ok_cls = (cls == want) if want == "color-parse" else (cls is not None)
+                    res.check(rc == 1 and ok_cls, "picker-failure-is-a-pastel-error", "cli:colorpicker", "%s %r" % (name, cmd), "rc=%s class=%s msg=%r" % (rc, cls, msg))
     finally:
         shutil.rmtree(d, ignore_errors=True)
     # an argument that is not valid UTF-8, in every position relative to known and unknown flags
